@@ -179,7 +179,9 @@ pub fn run_case(case: &Value, out: &mut dyn Write) {
                 r.write_all(&mut whole).unwrap();
                 json!({"bytes": obs::bytes(&sink.out), "whole": obs::bytes(&whole), "wrote_ok": wr.is_ok(),
                        "cl": r.content_length(), "ctype": obs::media(r.content_type()), "depr": r.deprecation(),
-                       "v": obs::version(r.http_version()), "body": obs::bytes(&r.body().map(|b| b.body).unwrap_or_default())})
+                       "v": obs::version(r.http_version()), "body": obs::bytes(&r.body().map(|b| b.body).unwrap_or_default()),
+                       "allow": r.allow().iter().map(|m| obs::method(*m)).collect::<Vec<_>>(),
+                       "status": String::from_utf8_lossy(&r.status().raw()[..]).parse::<u64>().unwrap_or(0)})
             }
             "router" => {
                 let log = Arc::new(Mutex::new(vec![]));
